@@ -31,7 +31,7 @@ TITLE = "Free-projection step averages to exp(-dt (H - ene0)) with exact norm bo
 MENU = {"quick": 48, "thorough": 192}
 TIERS = {
     "quick": dict(runs=48 * 12, budget_s=170, recheck=2, shrink_s=60.0, run_timeout_s=900),
-    "thorough": dict(runs=192 * 150, budget_s=2400, recheck=6, shrink_s=180.0, run_timeout_s=1800),
+    "thorough": dict(runs=192 * 150, budget_s=1200, recheck=6, shrink_s=180.0, run_timeout_s=1800),
 }
 LADDER = [0.02, 0.01, 0.005, 0.0025]
 STEP_DTS = [0.04, 0.02, 0.01, 0.005]
@@ -99,6 +99,10 @@ def gen_cfg(seed, index, tier):
 
 def group_of(cfg):
     return f"m{cfg['menu']:03d}"
+
+
+def group_of_index(seed, index, tier):
+    return f"m{index % MENU[tier]:03d}"
 
 
 def build(cfg, dt=None):
